@@ -22,11 +22,12 @@ LEVEL = "exploration"
 RULE = (
     "A case is a straight-line pipeline: a source (from_array with explicit chunks, ones/zeros/full/arange/linspace) followed "
     "by 1-5 steps drawn from the operations the expression engine implements (probed on the pinned tree): unary and "
-    "scalar elementwise ops and NumPy ufuncs via __array_ufunc__, binary ops with a fresh differently chunked operand "
+    "scalar elementwise ops (Python scalars; NumPy scalars on either side) and NumPy ufuncs via __array_ufunc__, binary ops with a fresh differently chunked operand "
     "(same shape, trailing-dims or size-1 broadcast), the array combined with a re-chunked copy of itself, basic slicing "
     "(slices incl. negative steps, integers, None), integer-list and dask-integer-array indexing, reductions "
     "(sum/mean/max/min/prod/any/all/nansum/nanmax as methods or top-level functions, axis None/int/tuple, keepdims, "
-    "split_every), rechunk (tuples, dicts, -1, method and function form), transpose/.T, concatenate/stack (with itself "
+    "split_every), rechunk (tuples, dicts, -1, method and function form; a stratum of 6..10 x 6..10 sources in one-row slabs re-chunked to "
+    "one-column slabs, which the planner does in two passes from about 8x8 on; also enumerated: rechunk_plans), transpose/.T, concatenate/stack (with itself "
     "or a fresh array), map_blocks with elementwise functions, astype, clip, repeat. The generator tracks the shape "
     "symbolically so every step is valid NumPy. The pipeline runs (a) on NumPy, (b) on the classic engine in this process, "
     "(c) in a persistent worker interpreter started with DASK_ARRAY__QUERY_PLANNING=True. Oracle: expr value/shape/dtype "
@@ -52,6 +53,25 @@ ASSUMPTIONS = [
 ]
 TECHNIQUE = "differential testing: NumPy vs classic engine (in-process) vs expression engine (persistent subprocess, JSON lines)"
 
+
+
+def _npscalar(v):
+    return np.dtype(v[0]).type(v[1])
+
+
+# "scalar" steps whose operand is a NumPy scalar (value = [dtype, number]); npl_*: the NumPy scalar is the LEFT operand, so
+# np.generic.__add__ & co. run first and have to hand over to the array (__array_priority__ / __array_ufunc__).  Registered in
+# the worker module's table so that NumPy, the classic engine and the worker interpreter (started from THIS module, see
+# _worker and the __main__ guard at the bottom) all interpret them.
+W.SCALAR.update({
+    "npl_add": lambda a, v: _npscalar(v) + a,
+    "npl_sub": lambda a, v: _npscalar(v) - a,
+    "npl_mul": lambda a, v: _npscalar(v) * a,
+    "npl_gt": lambda a, v: _npscalar(v) > a,
+    "npr_add": lambda a, v: a + _npscalar(v),
+    "npr_mul": lambda a, v: a * _npscalar(v),
+})
+
 _WORKERS: dict = {}
 TIMEOUT_S = 600  # wall clock, very generous: tiny pipelines on a loaded machine
 
@@ -69,7 +89,7 @@ def _worker():
     p = _WORKERS.get(pid)
     if p is None or p.poll() is not None:
         env = dict(os.environ, DASK_ARRAY__QUERY_PLANNING="True")
-        p = subprocess.Popen([sys.executable, "-W", "ignore", "-m", "vf.props._c30_worker"], stdin=subprocess.PIPE, stdout=subprocess.PIPE, stderr=subprocess.DEVNULL, env=env, text=True)
+        p = subprocess.Popen([sys.executable, "-W", "ignore", "-m", "vf.props.c30"], stdin=subprocess.PIPE, stdout=subprocess.PIPE, stderr=subprocess.DEVNULL, env=env, text=True)
         _WORKERS[pid] = p
         atexit.register(_kill, p)
     return p
@@ -126,6 +146,7 @@ def flags(spec):
         dask_index=any(it[0] == "d" for it in items),  # dask integer array as index
         none_after_int=any(it[0] == "n" and any(p[0] == "i" for p in ix[:k]) for ix in idx for k, it in enumerate(ix)),
         has_stack=any(s["op"] == "stack" for s in spec["steps"]),
+        np_scalar_left=any(s["op"] == "scalar" and s["fn"].startswith("npl_") for s in spec["steps"]),  # np.int8(3) + x
     )
 
 
@@ -181,6 +202,24 @@ def evaluate(spec):
     return out
 
 
+def _multistep(spec, k):
+    """Step k-1 of the pipeline is a rechunk (or combines the array with a re-chunked copy of itself): does the planner split that
+    rechunk into several passes?  (old/new chunks from the classic engine)"""
+    import dask.array as da
+    from dask.array.rechunk import plan_rechunk
+
+    st_ = spec["steps"][k - 1]
+    before = W.build({**spec, "steps": spec["steps"][: k - 1]}, da)
+    after = before.rechunk(tuple(tuple(c) for c in st_["chunks"])) if st_["op"] == "self" else W.build({**spec, "steps": spec["steps"][:k]}, da)
+    return len(plan_rechunk(before.chunks, after.chunks, before.dtype.itemsize)) > 1
+
+
+def _repeat_empty_axis(spec, k):
+    """Step k-1 is a repeat: is the repeated axis of its input empty?  (shape from NumPy)"""
+    before = np.asarray(W.build({**spec, "steps": spec["steps"][: k - 1]}, None))
+    return before.shape[spec["steps"][k - 1]["axis"]] == 0
+
+
 def check(spec):
     try:
         out = evaluate(spec)
@@ -188,16 +227,22 @@ def check(spec):
         # Report the FIRST failing prefix of the pipeline (its own message and signature): the most fundamental failure, and
         # a stable low-cardinality `op` (the last step of that prefix) for the signature.
         op = spec["steps"][-1]["op"] if spec["steps"] else "source"
+        kfail = len(spec["steps"])
         for k in range(0, len(spec["steps"])):
             try:
                 evaluate({**spec, "steps": spec["steps"][:k]})
             except Violation as v2:
-                v, op = v2, (spec["steps"][k - 1]["op"] if k else "source")
+                v, op, kfail = v2, (spec["steps"][k - 1]["op"] if k else "source"), k
                 break
             except Reject:
                 continue
+        # rechunk_multistep: the failing step is a rechunk (or `self`: x op x.rechunk(...)) that dask's planner (plan_rechunk, shared by both engines) does in
+        # more than one pass (an intermediate chunking), e.g. rows of 1 -> columns of 1 on an 8x8 array
+        multi = op in ("rechunk", "self") and _multistep(spec, kfail)
+        # repeat_empty_axis: the failing step repeats along an axis of length 0 (left behind by an empty slice)
+        empty_rep = op == "repeat" and _repeat_empty_axis(spec, kfail)
         # scalar_operand: that step combines the array with a Python scalar (finding scalar-operands-become-0d-arrays)
-        raise Violation(v.message, v.sig["symptom"], op=op, scalar_operand=op in ("scalar", "clip"), **{k: x for k, x in v.sig.items() if k != "symptom"}) from None
+        raise Violation(v.message, v.sig["symptom"], op=op, scalar_operand=op in ("scalar", "clip"), rechunk_multistep=multi, repeat_empty_axis=empty_rep, **{k: x for k, x in v.sig.items() if k != "symptom"}) from None
     count("optimize_changed_tree", int(out["changed"]))
     count("expr_evaluated")
 
@@ -220,6 +265,10 @@ def classes(spec):
         yield "op-" + s["op"]
         if s["op"] == "reduce":
             yield "reduce-" + s["fn"]
+        if s["op"] == "scalar" and s["fn"].startswith("np"):
+            yield "scalar-numpy-" + ("left" if s["fn"].startswith("npl_") else "right")
+        if s["op"] == "rechunk" and s.get("thin"):
+            yield "rechunk-thin-to-thin"
         if s["op"] == "slice":
             for k in sorted({it[0] for it in s["index"]}):
                 yield "index-" + {"s": "slice", "i": "int", "n": "None", "l": "list", "d": "dask-array"}[k]
@@ -269,6 +318,12 @@ def pipeline(draw):
                 src["value"] = draw(st.integers(-4, 4))
     knd = np.dtype(dtype).kind  # coarse dtype kind of the current value: i / f / b
     steps = []
+    if draw(st.integers(0, 11)) == 0:
+        # stratum: a 2-d source of 6..10 x 6..10 in slabs of one row (column) that is re-chunked into slabs of one column (row):
+        # from about 8x8 on the planner does this in two passes through an intermediate chunking
+        shape = [draw(st.integers(6, 10)), draw(st.integers(6, 10))]
+        src, thin = thin_case(shape, dtype, draw(st.booleans()), draw(st.integers(0, 99)))
+        steps.append({**thin, "toplevel": draw(st.booleans())})
     for _ in range(draw(st.sampled_from([1, 2, 2, 3, 3, 4, 4, 5]))):
         nd = len(shape)
         size = int(np.prod(shape)) if shape else 1
@@ -284,6 +339,12 @@ def pipeline(draw):
         if op == "unary":
             s["fn"] = draw(st.sampled_from(["logical_not"] if knd == "b" else ["neg", "abs", "square", "sign"] + (["floor"] if knd == "f" else [])))
             knd = "b" if s["fn"] == "logical_not" else knd
+        elif op == "scalar" and draw(st.integers(0, 7)) == 0:
+            # a NumPy scalar operand (strongly typed under NEP 50), on either side
+            s["fn"] = draw(st.sampled_from(["npl_add", "npl_add", "npl_mul", "npr_add"] if knd == "b" else ["npl_add", "npl_add", "npl_sub", "npl_mul", "npl_gt", "npr_add", "npr_mul"]))
+            sdt = draw(st.sampled_from(["int8", "int64", "float32", "float64"]))
+            s["value"] = [sdt, draw(st.sampled_from([0, 1, 2, 3, -3] + ([1.5] if sdt[0] == "f" else [])))]
+            knd = "b" if s["fn"] == "npl_gt" else "f" if sdt[0] == "f" else "i" if knd == "b" else knd
         elif op == "scalar":
             s["fn"] = draw(st.sampled_from(["add", "mul", "eq"] if knd == "b" else ["add", "sub", "rsub", "mul", "gt", "le", "eq", "floordiv", "mod", "truediv", "maximum"]))
             s["value"] = draw(st.sampled_from([1, 2, 3, -2, 2.5] if s["fn"] in ("floordiv", "mod", "truediv") else [0, 1, 2, -3, 1.5]))
@@ -391,6 +452,21 @@ def pipeline(draw):
     return {"src": src, "steps": steps}
 
 
+def thin_case(shape, dtype, by_rows, seed):
+    """(source, rechunk step): a 2-d from_array source in slabs of one row (by_rows) or one column, and the rechunk to the other."""
+    r, c = shape
+    rows, cols = [[1] * r, [c]], [[r], [1] * c]
+    old, new = (rows, cols) if by_rows else (cols, rows)
+    return {"kind": "from_array", "array": {"shape": [r, c], "dtype": dtype, "seed": seed, "fill": "small", "chunks": old}}, {"op": "rechunk", "chunks": new, "thin": True}
+
+
+def rechunk_plan_cases(tier):
+    red = {"op": "reduce", "fn": "sum", "axis": 0, "keepdims": False, "split_every": None, "toplevel": False}
+    for r, c, by_rows, tail in itertools.product(range(6, 11), range(6, 11), (True, False), (False, True)):
+        src, step = thin_case([r, c], "i8" if (r + c) % 2 else "f8", by_rows, r * 11 + c)
+        yield {"src": src, "steps": [step, red] if tail else [{"op": "scalar", "fn": "add", "value": 1}, step]}
+
+
 # ---------------------------------------------------------------------------- enum family
 def templates():
     """2-3 step pipelines on a (3,4) source; every one makes lowering rewrite the tree."""
@@ -422,6 +498,12 @@ def enum_cases(tier):
 SUBCHECKS = [
     Sub("pipelines_enum", check, kind="enum", cases=enum_cases, nontrivial=nontrivial, classes=classes, exhaustive=True, budget_s={"quick": 150, "thorough": 900},
         doc="every chunking of a (3,4) source x 13 fixed 2-3 step pipelines (slice/reduce/rechunk/align/concat/stack/map_blocks/dask index)"),
+    Sub("rechunk_plans", check, kind="enum", cases=rechunk_plan_cases, nontrivial=nontrivial, classes=classes, exhaustive=True, budget_s={"quick": 150, "thorough": 900},
+        doc="6..10 x 6..10 sources in one-row (one-column) slabs re-chunked to one-column (one-row) slabs, before a reduction / after an elementwise step: single- and multi-pass rechunk plans"),
     Sub("pipelines", check, strategy=lambda tier: pipeline(), n={"quick": 1600, "thorough": 30000}, nontrivial=nontrivial, classes=classes, budget_s={"quick": 150, "thorough": 900},
         doc="random 1-5 step pipelines over the implemented operation set, three engines compared, optimize/simplify/lower_completely invariance"),
 ]
+
+
+if __name__ == "__main__":  # the persistent expression-engine worker: _c30_worker's loop with this module's extra operations registered
+    W.main()
